@@ -933,8 +933,30 @@ def gen_identity(rng, kind):
 IDENTITY_KINDS = ["parity", "callspread", "butterfly", "digital", "ki_ko", "asian", "default", "notional", "rep"]
 
 
+def lean_witnesses():
+    """the literal inputs of the negation witnesses / examples of Proofs/C17.lean, replayed on the implementation"""
+    t = [0.0, 1.0]
+    mk = lambda rep, row: dict(op="path", rep=rep, times=t, rows=[row], jrows=[[1.0, 1.0] if rep == "id" else [0.0, 0.0]], flat=True)
+    bar = dict(und=dict(k="spot"), pay=dict(k="bar", call=True, K=1.0, up=True, **{"in": False}, B=2.0), notional=1.0)
+    fwd = dict(und=dict(k="spot"), pay=dict(k="fwd", K=0.0), notional=1.0)
+    asian = dict(und=dict(k="asian"), pay=dict(k="fwd", K=0.0), notional=1.0)
+    seqs = [dict(kind="seq", terms=bar, ops=[mk("id", [1.0, 3.0]), mk("id", [1.0, 1.5])]),                  # sticky_flag_witness
+            dict(kind="seq", terms=fwd, ops=[dict(op="update", rep="log"), dict(op="update", rep="id"), mk("id", [1.0, 1.5])]),
+            dict(kind="seq", terms=asian, ops=[mk("id", [1.0, 1.5])])]                                      # asian_old_witness
+    ids = [dict(kind="butterfly", u=3.0, K1=1.0, K2=1.5, K3=3.0),                                           # butterfly_negative_witness
+           dict(kind="rep", terms=bar, path=mk("log", [0.0, 1.125])),                                       # barrier_flag_depends_on_representation
+           dict(kind="rep", terms=dict(und=dict(k="nth", i=1, **{"as": [-1.0]}), pay=dict(k="fc", c=1.0), notional=1.0),
+                path=dict(op="path", rep="log", times=t, rows=[[0.0, 0.0]], jrows=[[0.0, -2.0]], flat=False))]  # nthDefault_disagree_witness
+    return seqs, ids
+
+
 def run(ctx):
     rng = ctx.rng
+    seqs, ids = lean_witnesses()
+    for d in seqs:
+        run_sequence(ctx, d)
+    for d in ids:
+        PROBES[d["kind"]](ctx, d)
     for d in directed_sequences(rng):
         run_sequence(ctx, d)
     for _ in range(ctx.n(260, 2600)):
